@@ -97,8 +97,9 @@ func (p *Program) genVC(con *Contract, sorts map[string]string) (vc *VC, err err
 	if err := fc.execBody(entry, params); err != nil {
 		return vc, err
 	}
+	vc.curTag = -1
 	// vacuity: the precondition (with the typing facts) must be satisfiable
-	vc.obls = append([]*Obligation{{Name: shortName(fn) + "/vacuity:requires", Kind: "vacuity", Func: shortName(fn), Guard: "true", Goal: "false",
+	vc.obls = append([]*Obligation{{Name: shortName(fn) + "/vacuity:requires", Kind: "vacuity", Func: shortName(fn), Guard: "true", Goal: "false", Tag: -1,
 		NAsserts: nPre, vc: vc, Expect: "sat", Desc: "requires and typing facts are satisfiable", Props: con.props()}}, vc.obls...)
 	// postconditions and frames at every return
 	targets, err := fc.modTargets(con.Modifies, se)
@@ -112,6 +113,7 @@ func (p *Program) genVC(con *Contract, sorts map[string]string) (vc *VC, err err
 	alloc0 := baseName("alloc", 0)
 	for ei, ex := range fc.exits {
 		fc.cur = ex.state
+		vc.curTag = ex.block.Index
 		fc.lastCall = strings.TrimPrefix(ex.site, "after:")
 		if ex.site == "entry" {
 			fc.lastCall = ""
